@@ -159,7 +159,7 @@ pub struct RunOut {
     pub concurrent_steps: usize,
 }
 
-pub const HANDLERS: [&str; 3] = ["change-root", "change-included", "open-included"];
+pub const HANDLERS: [&str; 4] = ["change-root", "change-included", "open-included", "resend-root"];
 
 /// Runs one scenario under the controlled scheduler following `choices` (then: keep running the
 /// same actor, else the first parked one).
@@ -226,6 +226,8 @@ pub fn run_schedule(handler: &str, requests: &[String], choices: &[String]) -> R
     // N1: the handler under test
     match handler {
         "change-root" => c.did_change(&uris[0], 3, &doc_text(2, 2)),
+        // the same text again (an editor re-sending an unchanged buffer)
+        "resend-root" => c.did_change(&uris[0], 3, &doc_text(2, 1)),
         "change-included" => c.did_open(&uris[1], "class Base { int b = 1; }\n"),
         _ => c.did_open(&uris[1], "class Base { int b = 0; }\nclass Other;\n"),
     }
